@@ -84,6 +84,9 @@ def run(ctx):
             (dict(hosts=["10.0.0.1", "10.0.0.2"], rounds=6, prelude=["ok|10.0.0.1|ok", "drop"], **small), 1),
             (dict(hosts=["10.0.0.1"], rounds=5, prelude=["ok|10.0.0.1|auth-error"], **small), 2),
             (dict(hosts=["10.0.0.1"], rounds=6, prelude=["refuse", "timer", "refuse", "timer", "refuse", "close", "zc-same"], **small), 1),
+            # other environments (read boundaries, block sizes, HTTP spelling of the accessory's replies): nothing in the property depends on them
+            (dict(hosts=["10.0.0.1", "10.0.0.2"], rounds=8, env=dict(delivery="bytes", frames=[7], http="chunked-lower"), **small), 1),
+            (dict(hosts=["10.0.0.1"], rounds=6, subscriptions=True, env=dict(delivery="3/4", frames=[40], http="lower"), behaviours=["ok", "ok-bad-subscribe-reply", "auth-error", "m4-auth-error"], triggers=["zc-same", "ensure", "drop", "close"]), 1),
             # long horizon on defaults only: the accessory stays unreachable for 2100 consecutive rounds (about 35 h of back-off at the 60 s cap)
             (dict(hosts=["10.0.0.1"], rounds=2100, max_time=1e9, triggers=[]), 0),
             # one of two addresses already excluded (wrong pairing id), then address sets that overlap the old one in either member
